@@ -14,10 +14,11 @@ struct nv_dataset { struct nv_datasource m_datasource; struct nv_gens m_generato
 
 /* assumed contracts of indices.min() / indices.max() (Eigen minCoeff / maxCoeff on a non-empty vector), stated at the
  * ghost position nv_g: min <= a[g], max >= a[g].  For an empty list Eigen's reductions are undefined: arbitrary value. */
+int64_t nv_w_index, nv_w_listsize;   /* witnesses for replay: the list entry at the ghost position, the list length */
 static int64_t nv_t1i_min(const struct nv_t1i* t)
-{ int64_t m = nv_nondet_int64_t(); if (0 <= nv_g && nv_g < t->n) __CPROVER_assume(m <= t->p[nv_g]); return m; }
+{ int64_t m = nv_nondet_int64_t(); if (0 <= nv_g && nv_g < t->n) { __CPROVER_assume(m <= t->p[nv_g]); nv_w_index = t->p[nv_g]; nv_w_listsize = t->n; } return m; }
 static int64_t nv_t1i_max(const struct nv_t1i* t)
-{ int64_t m = nv_nondet_int64_t(); if (0 <= nv_g && nv_g < t->n) __CPROVER_assume(m >= t->p[nv_g]); return m; }
+{ int64_t m = nv_nondet_int64_t(); if (0 <= nv_g && nv_g < t->n) { __CPROVER_assume(m >= t->p[nv_g]); nv_w_index = t->p[nv_g]; nv_w_listsize = t->n; } return m; }
 /* assumed contract of tensor_t::operator()(i, j) on a rank-2 tensor (row-major offset, proved for nano::index in C16):
  * the indices must be inside the dimensions (checked here at every use) */
 static int64_t* nv_t2i_at(const struct nv_t2i* t, int64_t i, int64_t j)
@@ -33,9 +34,10 @@ static int64_t* nv_t2i_at(const struct nv_t2i* t, int64_t i, int64_t j)
 #define NV_CONTRACT_dataset_check_samples \
 __CPROVER_requires(__CPROVER_is_fresh(self, sizeof(*self)) && NV_DATASOURCE_OK(self->m_datasource) && NV_T1I_OK(samples)) \
 __CPROVER_requires(0 <= nv_g && nv_g < samples.n) \
-__CPROVER_assigns(nv_thrown) \
+__CPROVER_assigns(nv_thrown, nv_w_index, nv_w_listsize) \
 /* returning normally means every listed index (ghost position) is a valid sample */ \
-__CPROVER_ensures(!nv_thrown ==> (0 <= samples.p[nv_g] && samples.p[nv_g] < NV_SAMPLES(self))) \
+__CPROVER_ensures(!nv_thrown ==> 0 <= samples.p[nv_g]) \
+__CPROVER_ensures(!nv_thrown ==> samples.p[nv_g] < NV_SAMPLES(self)) \
 /* and a list of valid samples is not rejected (only given at the ghost position: cannot be stated without a quantifier) */
 
 /* dataset invariant established by dataset_t::update(): the feature mapping has 5 columns, one row per feature, and
